@@ -18,7 +18,7 @@ from sim.common import Stats
 ID = "C11"
 LEVEL = "exploration"
 DEFAULT_SEED = 1111
-BATCH = 64
+BATCH = 2
 TASK_TIMEOUT = 600
 WALL_CAP = {"quick": 100, "thorough": 2400}
 RULE = (
